@@ -335,7 +335,8 @@ def livenessLaunch (f : Faults) (c : Ctx) : Ctx × Bool :=
   else
     let o := claimDeleteOutcome f c.w
     let c := deleteClaim f c
-    if o = .ok then (c, true)
+    -- (repaired) the launch-timeout branch returns after its Delete instead of falling through to the registration timeout
+    if o = .ok then (c, false)
     else if o = .notFound then (c, false)
     else ({ c with errs := true }, false)
 
